@@ -17,6 +17,10 @@ def run(ctx, R, tier):
     zero_div(F, R)
     from .c02 import nested_slices
     R.floor('B.C13.slice', nested_slices(F, R, rule='B.C13.slice'), 1)
+    # 'independent of how the input is split into process calls': a tweened parameter is read per frame with
+    # interpolated_value(time_in_chunk) (or once per call with value()); an effect never blends chunk-end values itself
+    pv = sorted(set(b.path for b in F.bodies if b.krate == 'kira' and 'effect::' in b.path for _, t in b.calls() if (callee_path(t) or '') == 'parameter::Parameter::<T>::previous_value'))
+    R.check(not pv, 'B.C13.slicing', 'no-chunk-end-blend', '%s reads Parameter::previous_value(): its own interpolation between chunk ends depends on the chunk length' % pv, detail='effects use interpolated_value / value only')
     linear(F, R)
     from .c06 import defaults_match
     defaults_match(F, R, rule='B.C13.defaults')
